@@ -251,3 +251,68 @@ def lenbucket(n):
     if n <= 2000:
         return 'len257-2000'
     return 'len>2000'
+
+
+# ---------------------------------------------------------------------------------------------
+# in-memory construction routes: every route builds an object of class clsname holding exactly `bits`
+
+MEM_ROUTES = ['bin', 'auto_bin', 'hex_or_bin', 'slice_of_longer', 'bytes_offset', 'concat', 'bitarray', 'bitarray_kw', 'iterable', 'from_other_class',
+              'fromstring', 'join', 'copy', 'bytesio_offset', 'pack_bits', 'cache_hit']
+
+
+def build_route(clsname, bits, route, salt=0):
+    import bitarray as _ba
+    bs = bitstring_module()
+    c = cls_of(clsname)
+    n = len(bits)
+    if route == 'bin' or (n == 0 and route in ('auto_bin', 'hex_or_bin', 'fromstring', 'cache_hit')):
+        return c(bin=bits)
+    if route == 'auto_bin':
+        return c('0b' + bits)
+    if route == 'hex_or_bin':
+        if n % 4 == 0:
+            return c(hex=format(int(bits, 2), f'0{n // 4}x'))
+        if n % 3 == 0:
+            return c(oct=format(int(bits, 2), f'0{n // 3}o'))
+        return c(bin='0b' + bits)
+    if route == 'slice_of_longer':
+        pre = '10110'[:1 + salt % 5]
+        post = '0111'[:salt % 4]
+        big = c(bin=pre + bits + post)
+        return big[len(pre):len(pre) + n]
+    if route in ('bytes_offset', 'bytesio_offset'):
+        off = salt % 11
+        padded = '1' * off + bits
+        padded += '1' * (-len(padded) % 8)
+        b = to_bytes(padded)
+        if route == 'bytes_offset':
+            return c(bytes=b, offset=off, length=n)
+        return c(io.BytesIO(b), offset=off, length=n)
+    if route == 'concat':
+        k = (salt % (n + 1)) if n else 0
+        return c(bin=bits[:k]) + c(bin=bits[k:])
+    if route == 'bitarray':
+        return c(_ba.bitarray(bits))
+    if route == 'bitarray_kw':
+        off = salt % 5
+        return c(bitarray=_ba.bitarray('1' * off + bits + '0' * (salt % 3)), offset=off, length=n)
+    if route == 'iterable':
+        if n > 4000:
+            return c(bin=bits)
+        return c([ch == '1' for ch in bits])
+    if route == 'from_other_class':
+        other = CLASSES[(CLASSES.index(clsname) + 1 + salt % 3) % 4]
+        return c(cls_of(other)(bin=bits))
+    if route == 'fromstring':
+        return c.fromstring('0b' + bits)
+    if route == 'join':
+        k = (salt % (n + 1)) if n else 0
+        return c().join([bs.Bits(bin=bits[:k]), bs.BitArray(bin=bits[k:])])
+    if route == 'copy':
+        return c(bin=bits).copy() if salt % 2 else __import__('copy').copy(c(bin=bits))
+    if route == 'pack_bits':
+        return c(bs.pack('bits', bs.Bits(bin=bits)))
+    if route == 'cache_hit':
+        bs.Bits('0b' + bits)
+        return c('0b' + bits)
+    raise HarnessError('unknown route ' + route)
